@@ -6,7 +6,8 @@ case = {"kind": "init" | "bound" | "enum" | "case" | "bitfield",
         "dtype": <integer type>                  init: type of the object; case: type of the controlling expression;
                                                  bound: element type
         "place": "global" | "static" | "local"   init only: file scope, file scope static, block scope static
-        "excluded": [finding ids the generator steered away from]}
+        "other", "args"                          case only: a second (literal) label and the argument vector
+        "two"                                    enum only: is there a second, implicit enumerator}
 
 One case is one *item*: a one-line C fragment plus the functions that make its value observable.
 ppci compiles each item as its own translation unit (ppci.api.c_to_ir(src, 'x86_64')); the observation is read
@@ -40,6 +41,7 @@ RULE = (
     "c_to_ir(x86_64) -> Variable.value/amount and the item's functions run under vf/irsem; oracle: the same item "
     "compiled by gcc -std=c99 and printed by a driver; items with a gcc diagnostic other than value-changing "
     "conversion/parentheses/sign-compare are discarded, as are items on which the reference evaluator and gcc differ. "
+    "Items on which the defect model of an open finding (vf/cconst.model_eval) predicts a wrong outcome are excluded and counted. "
     "non-trivial = a negative operand of / % >>, or unsigned/narrowing wrap-around inside the expression, or a value "
     "that does not fit the destination; distinct = hash of (kind, destination, expression text)"
 )
@@ -58,7 +60,7 @@ LEVEL_TEXT = (
     "evaluator keeps the generator inside defined behaviour and must agree with gcc on each judged item.  The input "
     "space (expression trees) is unbounded, so structured sampling with boundary-biased literals is the fitting level."
 )
-REGISTER = False
+REGISTER = True
 
 GCC = shutil.which("gcc")
 GCC_FLAGS = ["-std=c99", "-pedantic", "-Wall", "-Wextra", "-Woverflow", "-Wno-unused", "-O0", "-fno-diagnostics-show-caret", "-fdiagnostics-color=never"]
